@@ -323,3 +323,139 @@ func contains(s, sub string) bool {
 	}
 	return false
 }
+
+func init() {
+	ways := []string{"client Free under incoming traffic", "client SendAndClose under incoming traffic", "handler returns while the client keeps sending", "handler returns an error while the client keeps sending", "handler panics while the client keeps sending"}
+	vexp.Register(&vexp.Scenario{
+		Name: "c06.W1.wide-end-vs-sibling", Prop: "C06", MaxSteps: 100000,
+		Bounds: func(thorough bool) vexp.Bounds {
+			if thorough {
+				return vexp.Bounds{P: 2, F: 1, E: 1}
+			}
+			return vexp.Bounds{P: 1, F: 1, E: 0}
+		},
+		Configs: func(thorough bool) []map[string]int {
+			var out []map[string]int
+			for w := range ways {
+				out = append(out, map[string]int{"way": w, "window": 1 << 20}, map[string]int{"way": w, "window": 3, "writeq": 16})
+			}
+			return out
+		},
+		Doc: "real client and server connections with their real loops; channel A is ended in one of 5 ways (client Free / client SendAndClose while the server streams to it; server handler return / error / panic while the client streams to it) while sibling channel B transfers b0,b1 and a closing b2: both connections stay open, only the handler's own error/panic may be logged, B receives exactly its messages",
+		Body: func(x *vexp.Ctx) {
+			way := x.P("way", 0)
+			var bGot []string
+			bDrained := false
+			hDone := 0
+			handler := HandleFunc(func(ctx Context, ch Channel) status.Status {
+				defer func() { hDone++ }()
+				rctx := async.NoContext()
+				first, st := ch.Receive(rctx)
+				if !st.OK() {
+					return status.OK
+				}
+				if string(first) == "b0" {
+					bGot = append(bGot, "b0")
+					for {
+						m, st := ch.Receive(rctx)
+						if !st.OK() {
+							bDrained = st.Code == status.CodeEnd
+							return status.OK
+						}
+						bGot = append(bGot, string(m))
+					}
+				}
+				// channel A
+				switch way {
+				case 0, 1:
+					for i := 0; i < 3; i++ { // stream to a client that is about to end the channel
+						if st := ch.Send(rctx, []byte(fmt.Sprintf("s%d", i))); !st.OK() {
+							return status.OK
+						}
+					}
+					ch.Receive(rctx)
+					return status.OK
+				case 2:
+					return status.OK
+				case 3:
+					return status.Errorf("handler failed")
+				default:
+					panic("handler boom")
+				}
+			})
+			w := newWide(x, handler)
+			ctx := async.NoContext()
+			aDone, bDone := false, false
+			var problems []string
+			vsched.GoNamed("client.A", func() {
+				defer func() {
+					if e := recover(); e != nil {
+						problems = append(problems, fmt.Sprintf("client call on channel A panics: %v", e))
+					}
+					aDone = true
+				}()
+				ch, st := w.cli.Channel(ctx)
+				if !st.OK() {
+					problems = append(problems, "Channel A: "+st.String())
+					return
+				}
+				ch.Send(ctx, []byte("a0"))
+				switch way {
+				case 0:
+					ch.Receive(ctx)
+					ch.Free()
+				case 1:
+					ch.Receive(ctx)
+					ch.SendAndClose(ctx, []byte("bye"))
+					ch.Free()
+				default:
+					for i := 1; i <= 3; i++ { // keep sending to a handler that is gone
+						if st := ch.Send(ctx, []byte(fmt.Sprintf("a%d", i))); !st.OK() {
+							break
+						}
+					}
+					ch.Free()
+				}
+			})
+			vsched.GoNamed("client.B", func() {
+				defer func() { bDone = true }()
+				ch, st := w.cli.Channel(ctx)
+				if !st.OK() {
+					problems = append(problems, "Channel B: "+st.String())
+					return
+				}
+				for i, m := range []string{"b0", "b1", "b2"} {
+					var st status.Status
+					if i < 2 {
+						st = ch.Send(ctx, []byte(m))
+					} else {
+						st = ch.SendAndClose(ctx, []byte(m))
+					}
+					if !st.OK() {
+						problems = append(problems, fmt.Sprintf("sibling Send(%s): %v", m, st))
+					}
+				}
+				ch.Free()
+			})
+			vsched.Join("clients and handlers done", func() bool { return aDone && bDone && hDone == 2 })
+			vsched.WaitIdle("quiesce")
+			for _, p := range problems {
+				x.Fail(errSig(p), "%s (%s)", p, ways[way])
+			}
+			if w.cli.closed.IsSet() || w.srv.closed.IsSet() || w.cliDone || w.srvDone {
+				x.Fail("connection closed after one channel ended", "%s: cli closed=%v srv closed=%v (run loops: %v / %v)", ways[way], w.cli.closed.IsSet(), w.srv.closed.IsSet(), w.cliSt, w.srvSt)
+			}
+			if fmt.Sprint(bGot) != "[b0 b1 b2]" || !bDrained {
+				x.Fail("sibling channel delivery broken", "%s: B received %v drained=%v", ways[way], bGot, bDrained)
+			}
+			for _, e := range w.log.Errors {
+				if (way == 3 && e == "Channel error: error: handler failed") || (way == 4 && contains(e, "Channel panic") && contains(e, "handler boom")) {
+					continue
+				}
+				x.Fail("error logged: "+errSig(e), "%s: %s", ways[way], e)
+			}
+			x.Outcome = fmt.Sprintf("way=%d B=%d", way, len(bGot))
+			w.shutdown()
+		},
+	})
+}
